@@ -4,7 +4,65 @@ from . import common, tier_e
 LEVEL = 'proof'
 
 
+def _lookup_job(job):
+    """run-time contract of nbdime.utils.has_gitattribute (the rule lookup the attributes obligation relies on) against an independent
+    regular-expression reading of 'an uncommented rule for exactly this pattern carries the attribute' -- bounded"""
+    seed, n = job
+    import random, re
+    from nbdime.utils import has_gitattribute
+    rnd = random.Random(seed)
+    pats = ['*.ipynb', 'docs/*.ipynb', '*.py', '#', '# *.ipynb', '#*.ipynb', '**/*.ipynb', '*.ipynbx', 'x*.ipynb']
+    attrs = ['diff=jupyternotebook', 'merge=jupyternotebook', '-diff', 'text', 'diff=other', 'merge=jupyternotebookx', 'xdiff=jupyternotebook', 'diff', 'binary']
+    out, cnt = [], 0
+    for i in range(n):
+        lines = []
+        for _ in range(rnd.randint(0, 5)):
+            u = rnd.random()
+            if u < 0.15:
+                lines.append(rnd.choice(['', '   ', '# comment diff=jupyternotebook']))
+            else:
+                sep = rnd.choice(['\t', ' ', '  ', ' \t'])
+                lines.append(rnd.choice(['', '', ' ']) + rnd.choice(pats) + sep + sep.join(rnd.sample(attrs, rnd.randint(1, 3))) + rnd.choice(['', ' ']))
+        text = rnd.choice(['\n', '\r\n']).join(lines) + rnd.choice(['', '\n'])
+        for attr in ('diff=jupyternotebook', 'merge=jupyternotebook'):
+            cnt += 1
+            want = any(re.match(r'^[ \t]*\*\.ipynb[ \t]+(?:\S+[ \t]+)*' + re.escape(attr) + r'(?:[ \t]+\S+)*[ \t]*$', ln) is not None
+                       for ln in re.split(r'\r\n|\n', text))
+            try:
+                got = has_gitattribute(text, '*.ipynb', attr)
+            except Exception as exc:
+                out.append(('lookup-crash', 'has_gitattribute(%r, \'*.ipynb\', %r) raised %s: %s' % (text, attr, type(exc).__name__, exc), {'seed': seed, 'n': n, 'index': i}))
+                continue
+            if bool(got) != want:
+                out.append(('lookup-contract', 'has_gitattribute(%r, \'*.ipynb\', %r) is %r, the rule-lookup contract says %r' % (text, attr, got, want), {'seed': seed, 'n': n, 'index': i}))
+    return cnt, out
+
+
+def replay_lookup(where):
+    return [o for o in _lookup_job((where['seed'], where['n']))[1] if o[2]['index'] == where['index']]
+
+
+def lookup_part(res):
+    try:
+        import importlib
+        if not hasattr(importlib.import_module('nbdime.utils'), 'has_gitattribute'):
+            return                   # the code under check does not use the helper (substring test: covered by the path obligation itself)
+    except Exception:
+        return
+    seen = set()
+    for cnt, fails in common.pmap(_lookup_job, [(res.seed * 271 + s, 400) for s in range(8)]):
+        res.evaluations += cnt
+        for kind, text, where in fails:
+            if kind in seen:
+                continue
+            seen.add(kind)
+            res.violation('%s [%s]' % (text, kind), dict(where, replay_kind='call', module='checks.c18', function='replay_lookup', args=[where]))
+    res.assumptions.append('nbdime.utils.has_gitattribute is used through an assumed contract (true iff an uncommented rule for exactly the pattern carries the attribute), '
+                           'checked at run time on 6400 generated attributes texts against an independent regular-expression reading -- bounded, not proved')
+
+
 def run(res):
+    lookup_part(res)
     from contracts import kit_e
     tier_e.run(res, kit_e.C18_JOBS, 'c18_bounded',
                'For the 8 enable/disable functions, on every path: each git invocation is `git config [--scope]` with the scope flag exactly when requested (reads and '
